@@ -679,6 +679,12 @@ def rule_r8(ctx) -> List[R.Inst]:
     return insts
 
 
+def rule_dep(ctx):
+    """obligations inherited from shared code reached through the call graph (sa/props/deps.py)"""
+    from .deps import dep_insts
+    return dep_insts(ctx, "C07", ["reamber.o2jam.O2JMapSet.O2JMapSet.read"], skip_groups=())
+
+
 SPECS = [
     RuleSpec("C07.R1", rule_r1, 26, "A10", "300-byte header: three parallel tables, struct sizes, frozen OJN layout, k-th field <- k-th row"),
     RuleSpec("C07.R2", rule_r2, 10, "A10", "package and event structs: formats and byte slices"),
@@ -688,6 +694,7 @@ SPECS = [
     RuleSpec("C07.R6", rule_r6, 1, "A8", "no ordering comparison of a None-able cursor under its own falsiness"),
     RuleSpec("C07.R7", rule_r7, 3, "A8", "one chart per difficulty, from its own packages and the header tempo"),
     RuleSpec("C07.R8", rule_r8, 8, "A7", "times come from the measure table; integration steps 4 * d(measure) / bpm; header tempo first"),
+    RuleSpec("C07.D", rule_dep, 1, "M0", "rules of the shared code (timing engine, list classes, stacker) that the operations of this property reach"),
 ]
 
 META = dict(
